@@ -175,6 +175,15 @@ type c15RC struct{ s *c15Src }
 func (r *c15RC) Read(p []byte) (int, error) { return r.s.read(p) }
 func (r *c15RC) Close() error               { return r.s.close() }
 
+// c15RLen / c15RCLen: the same readers with a Len() method (bytes left), as in-memory readers have.
+type c15RLen struct{ c15R }
+
+func (r *c15RLen) Len() int { return len(r.s.data) }
+
+type c15RCLen struct{ c15RC }
+
+func (r *c15RCLen) Len() int { return len(r.s.data) }
+
 // c15WTC: io.WriterTo + io.ReadCloser; WriteTo is bytes.Buffer's.
 type c15WTC struct {
 	buf *bytes.Buffer
@@ -624,8 +633,14 @@ func c15ExecX(in []string) []string {
 		case "n":
 		case "p":
 			reader = &c15R{src}
+			if (len(src.data)+len(src.sched))%3 == 1 {
+				reader = &c15RLen{c15R{src}} // a reader that also knows how much is left (like bytes.Reader) and still chunks
+			}
 		case "c":
 			reader = &c15RC{src}
+			if (len(src.data)+len(src.sched))%3 == 1 {
+				reader = &c15RCLen{c15RC{src}}
+			}
 		default:
 			panic("C15: bad stream " + stream)
 		}
@@ -700,6 +715,14 @@ type c15Inner struct {
 	Attrs map[string]int64  `json:"attrs" xml:"-" yaml:"attrs"`
 	Extra map[string]string `json:"extra,omitempty" xml:"-" yaml:"extra,omitempty"`
 }
+
+type c15Wrap struct {
+	V interface{}            `json:"v"`
+	M map[string]interface{} `json:"m"`
+	L []interface{}          `json:"l"`
+}
+
+type c15NMap map[string]interface{}
 
 type c15Doc struct {
 	XMLName xml.Name   `json:"-" xml:"doc" yaml:"-"`
@@ -972,6 +995,20 @@ func c15ExecJ(in []string) []string {
 		t := c15JTree(r, codec, 3)
 		var d interface{}
 		orig, dest = t, &d
+	case "wrap", "nmap":
+		// generic values in untyped positions of a typed destination (a struct with interface{} / map / slice
+		// fields; a named map type): numbers there must come back as they were sent, like everywhere else
+		if codec != "j" {
+			panic("C15: wrap/nmap are JSON shapes")
+		}
+		t := c15JTree(r, codec, 2)
+		if shape == "wrap" {
+			orig = &c15Wrap{V: t, M: map[string]interface{}{"k": t}, L: []interface{}{t, t}}
+			dest = &c15Wrap{}
+		} else {
+			orig = &c15NMap{"k": t, "l": []interface{}{t}}
+			dest = &c15NMap{}
+		}
 	default:
 		panic("C15: bad shape " + shape)
 	}
@@ -1302,6 +1339,9 @@ func c15Gen(r *proto.Rng, n int, tier string, emit func(in ...string)) {
 		shape := r.Pick("doc", "tree")
 		if codec == "x" {
 			shape = "doc"
+		}
+		if codec == "j" && r.Chance(1, 3) {
+			shape = r.Pick("wrap", "nmap")
 		}
 		emit("J", codec, shape, proto.N(r.Intn(1<<30)))
 	}
